@@ -34,6 +34,9 @@ CLAIMED = {
  "C15": ("nil-guard dominance, guard dominance (E6) with loop-invariant inference and counting-loop parity, layout/table agreement, call-graph reachability of crash sites (static)",
          "Panic-freedom clauses of the packet decoder, accessors, constructors and encoder decided for every byte string / argument as far as visible in the code: every dereference of a header item the decoder may leave unset is dominated by its nil test; every integer divisor is proven non-zero; every slice index, slice bound, make size and fixed-width big-endian read is proven in range (TLV parser: inferred invariant len(remaining)==bytes remaining plus the size guards; shape loop by step parity); the fixed header is written and read as the same fields at the same offsets and widths and every emitted TLV tag is parsed; the decoder reads exactly 16, headerLength-16 and at most payloadLength bytes; no explicit panic is reachable. Two stated weaker clauses: ReadValue's index is proven below Frames() (the relation Frames() <= len(Data) is not decided); ReadPacketPlusPad's stride is an API precondition. Not decided: byte-swap stride arithmetic, round-trip equality of payload values.",
          "encoding/binary fixed-width readers panic exactly on short slices; io.ReadFull semantics; integer arithmetic in guards does not wrap (uint8/uint16 header arithmetic is guarded before use)", "DESIGN.md §2 C15"),
+ "C14": ("serialisation-layout extraction (ordered buffer writes with sizes and value provenance) compared with the table parsed from doc/BINARY_FORMATS.md; escape check of the header buffer (static)",
+         "Layout clauses decided for every record: each builder's header is exactly the documented (offset, width, int/float) slot sequence (36 and 48 bytes; the table is parsed from the document at run time); every slot carries the plain record field (conversions only), version 0 and the signedness-selected type code; both builders stamp the same time/frame expressions; the message is a two-frame literal of the bytes of a fresh, unshared header buffer and the byte view of the whole sample / coefficient slice; the first two bytes are the channel index; the publisher goroutine sends exactly the builder's result and the two ports use their own builders; byte-view helpers return exactly sizeof(T) / len*sizeof(elem) bytes of their argument. Not decided: end-to-end receipt on a SUB socket.",
+         "little-endian host; bytes.Buffer.Write appends and never fails; doc/BINARY_FORMATS.md bullet format `* Byte N (k bytes): ...`", "DESIGN.md §2 C14"),
  "C13": ("dominating-comparison facts, path rule, control dependence and flow-insensitive dependence slicing on SSA (static)",
          "Structural necessary conditions only (the numeric identities are not decided): projectors/basis installed only after the three shape equalities hold; record length never changed while projectors validated for another length stay installed; sample->float64 conversions under the matching arm of the signed flag; each analysis result depends on the record's own data/pre-trigger count (never on the per-channel length setting), model coefficients on the projector matrix, residual on the basis matrix; slices stored into a record are fresh per record.",
          "dependence is over-approximated through memory of locals, make() sites and struct-field storage; field names of DataRecord are name-keyed anchors", "DESIGN.md §2 C13"),
